@@ -117,7 +117,9 @@ def _quick_configs():
     # pressure projection: every factory x {0, 1}
     c.append(_cfg("mech", "ps", 0, "neo", 2, 0, "s2x2", "perm"))
     c.append(_cfg("mech", "axi", 1, "neo", 2, 0, "g3x2", "plain"))
-    c.append(_cfg("mb2", "ps", 0, "neo", 1, 1, "g3x2", "perm"))
+    # order 2: a degree-0 projection is the identity on linear triangles (a seeded change that dropped degree 0 in the
+    # multi-block factory went undetected with order 1)
+    c.append(_cfg("mb2", "ps", 0, "neo", 2, 1, "g3x2", "perm"))
     c.append(_cfg("mb2", "ps", 1, "gent", 2, 0, "s2x2", "perm"))
     c.append(_cfg("dynA", "ps", 0, "neo", 2, 0, "d7", "perm"))
     c.append(_cfg("dynA", "axi", 1, "neo", 2, 1, "s2x2", "plain"))
